@@ -704,10 +704,23 @@ pub fn encode_all<A: Alphabet>(cfg: ECfg, bytes: &[u8]) -> EncodeOut {
             .map(|v| v.iter().map(|s| s.as_index() as u8).collect())
             .map_err(|e| e.0);
         let mut dst = vec![A::default_symbol(); bytes.len()];
-        let into = p
+        let mut into = p
             .encode_into(bytes, &mut dst)
-            .map(|_| dst.iter().map(|s| s.as_index() as u8).collect())
+            .map(|_| dst.iter().map(|s| s.as_index() as u8).collect::<Vec<u8>>())
             .map_err(|e| e.0);
+        // the destination is a caller-supplied slice of alignment 1: the same call into sub-slices starting 1, 7 and
+        // 15 symbols into a buffer must give the same answer (reported as encode_into's if any differs)
+        for off in [1usize, 7, 15] {
+            let mut buf = vec![A::default_symbol(); bytes.len() + off];
+            let r = p
+                .encode_into(bytes, &mut buf[off..])
+                .map(|_| buf[off..].iter().map(|s| s.as_index() as u8).collect::<Vec<u8>>())
+                .map_err(|e| e.0);
+            if r != into {
+                into = r;
+                break;
+            }
+        }
         EncodeOut {
             encode: enc,
             encode_raw: raw,
